@@ -4,6 +4,7 @@ import (
 	"bytes"
 	"fmt"
 	"os"
+	"reflect"
 	"runtime"
 	"sort"
 	"strings"
@@ -11,6 +12,7 @@ import (
 	"syscall"
 	"testing"
 	"time"
+	"unsafe"
 
 	libaudit "github.com/elastic/go-libaudit/v2"
 	"pgregory.net/rapid"
@@ -861,5 +863,67 @@ func TestC18Uevent(t *testing.T) {
 			hC18.Class("kernel-datagram-of-unaligned-length")
 			hC18.NonTrivial(hx.FP("uevent", len(want)), func() string { return what })
 		}
+	}
+}
+
+// TestC18SequenceWrap: the calls around the 2^32-th Send of a client. Nobody can wait for four billion sends, so
+// the client's counter (the unexported field netlink.go:66 names "seq") is set just below the wrap through
+// reflection — the only thing this stage does that a caller could not. The sequence numbers Send returns stay
+// pairwise distinct across the wrap, each is the one the kernel saw, and each comes after the last (modulo
+// 2^32).
+func TestC18SequenceWrap(t *testing.T) {
+	for _, back := range []uint32{1, 2, 3, 5} {
+		cl, err := libaudit.NewNetlinkClient(syscall.NETLINK_ROUTE, 0, make([]byte, 8192), nil)
+		if err != nil {
+			t.Skipf("NewNetlinkClient: %v", err)
+		}
+		f := reflect.ValueOf(cl).Elem().FieldByName("seq")
+		if !f.IsValid() || f.Kind() != reflect.Uint32 {
+			cl.Close()
+			hC18.Class("no-seq-field")
+			t.Skip("NetlinkClient has no uint32 field named seq any more")
+		}
+		*(*uint32)(unsafe.Pointer(f.UnsafeAddr())) = -back - 1
+		var seqs []uint32
+		for i := 0; i < 8; i++ {
+			c := C18Case{Kind: "seqwrap", Type: uint16(1000 + i), Flags: syscall.NLM_F_REQUEST, Payload: []byte{byte(i)}}
+			hC18.Eval()
+			seq, err := cl.Send(syscall.NetlinkMessage{Header: syscall.NlMsghdr{Type: c.Type, Flags: c.Flags}, Data: c.Payload})
+			if err != nil {
+				cl.Close()
+				t.Fatalf("VERIF-HARNESS Send: %v", err)
+			}
+			var msgs []syscall.NetlinkMessage
+			for try := 0; try < 20000; try++ {
+				msgs, err = cl.Receive(true, rawParser)
+				if err == syscall.EAGAIN || err == syscall.EINTR {
+					time.Sleep(50 * time.Microsecond)
+					continue
+				}
+				break
+			}
+			if err != nil || len(msgs) != 1 {
+				cl.Close()
+				hC18.Fail(t, "TestC18SequenceWrap", c, "no reply to send %d of a client whose counter started %d below 2^32: %v", i, back+1, err)
+			}
+			if err := checkEchoPort(msgs[0].Data, seq, c.Type, c.Flags, c.Payload, 0); err != nil {
+				cl.Close()
+				hC18.Fail(t, "TestC18SequenceWrap", c, "send %d of a client whose counter started %d below 2^32 returned sequence %d: %v", i, back+1, seq, err)
+			}
+			for j, s := range seqs {
+				if s == seq {
+					cl.Close()
+					hC18.Fail(t, "TestC18SequenceWrap", c, "a client whose counter started %d below 2^32: send %d returned sequence %d, which send %d had returned already (all so far: %v)", back+1, i, seq, j, seqs)
+				}
+			}
+			// (increasing modulo 2^32; a client may skip numbers — 0 is the kernel's own — but never goes back)
+			if n := len(seqs); n > 0 && (seq-seqs[n-1] == 0 || seq-seqs[n-1] >= 1<<31) {
+				cl.Close()
+				hC18.Fail(t, "TestC18SequenceWrap", c, "a client whose counter started %d below 2^32: send %d returned sequence %d after %d", back+1, i, seq, seqs[n-1])
+			}
+			seqs = append(seqs, seq)
+		}
+		cl.Close()
+		hC18.Class("sequence-counter-wraps")
 	}
 }
